@@ -512,20 +512,21 @@ fn worker(build: &str, seed: u64, n_calls: u64, index: u64, of: u64, trace: bool
     std::hint::black_box(firstuse::warm_up_third_party());
     install_clock();
     let mut st = WStats::default();
-    let mut idx = index;
+    let grid_end = calls::GRID_BASE + calls::grid_len(&funcs);
+    let mut idx = if index < n_calls { index } else { calls::next_index(index, of, index, n_calls) };
     while idx < from {
-        idx += of;
+        idx = calls::next_index(idx, of, index, n_calls);
     }
     let stderr = std::io::stderr();
-    while idx < n_calls && idx <= until {
+    while (idx < n_calls || (idx >= calls::GRID_BASE && idx < grid_end)) && idx <= until {
         if let Some(o) = only {
             if idx != o {
-                idx += of;
+                idx = calls::next_index(idx, of, index, n_calls);
                 continue;
             }
         }
         let mut rng = Rng::for_run(seed, tag("C03-call"), idx);
-        let call = calls::gen_call(&mut rng, &funcs);
+        let call = calls::call_for_index(seed, idx, &funcs, &mut rng);
         let vals = match &call {
             Call::Func { args, .. } | Call::Chain { args, .. } => args.vals(),
             _ => None,
@@ -535,7 +536,7 @@ fn worker(build: &str, seed: u64, n_calls: u64, index: u64, of: u64, trace: bool
         probe_call(&call, &mut st);
         // One call in 32 runs on a thread of its own: whatever the library
         // keeps per thread is then in its first-use state for that call.
-        let fresh_thread = rng.chance(1, 32);
+        let fresh_thread = rng.chance(1, 32) && idx < calls::GRID_BASE;
         if fresh_thread {
             *st.probes.entry("call_executed_on_a_fresh_thread").or_default() += 1;
         }
@@ -627,7 +628,7 @@ fn worker(build: &str, seed: u64, n_calls: u64, index: u64, of: u64, trace: bool
             }
         }
         st.hash = st.hash.wrapping_add(simcore::pool::batch_mix(idx, call_hash_value));
-        idx += of;
+        idx = calls::next_index(idx, of, index, n_calls);
     }
     let out = json!({
         "calls": st.calls, "passes": st.passes, "seamless_calls": st.seamless_calls,
@@ -1138,7 +1139,7 @@ fn coordinator(tier: &str, calls_override: Option<u64>, out: &std::path::Path) -
                         // regenerate the call and the pass list deterministically
                         let funcs = Tables::new();
                         let mut rng = Rng::for_run(seed, tag("C03-call"), idx);
-                        let call = calls::gen_call(&mut rng, &funcs);
+                        let call = calls::call_for_index(seed, idx, &funcs, &mut rng);
                         simcore::envswarm::install(&simcore::envswarm::plan(seed, k));
                         let located = locate_pass(build, seed, n_calls, idx, pno, &scratch);
                         simcore::envswarm::install(&simcore::envswarm::baseline());
@@ -1364,6 +1365,7 @@ fn coordinator(tier: &str, calls_override: Option<u64>, out: &std::path::Path) -
             "exhaustive": false,
             "samples": samples,
             "calls_per_build": n_calls,
+            "scaling_grid_calls_per_build": calls::grid_len(&Tables::new()),
             "builds": builds,
             "build_profiles": {"relchk": "optimised, overflow-checks = true, debug-assertions = true", "release": "optimised, both off", "devchk": "crate under test and harness at opt-level 0 with overflow checks and debug assertions (the configuration of cargo test / cargo build); runs the first twentieth of the calls"},
             "calls": totals.get("calls").copied().unwrap_or(0),
@@ -1440,7 +1442,7 @@ fn locate_pass(build: &str, seed: u64, n_calls: u64, idx: u64, pno: u64, scratch
     std::hint::black_box(firstuse::warm_up_third_party());
     install_clock();
     let mut rng = Rng::for_run(seed, tag("C03-call"), idx);
-    let call = calls::gen_call(&mut rng, &funcs);
+    let call = calls::call_for_index(seed, idx, &funcs, &mut rng);
     let _ = n_calls;
     let pass = if pno == 0 {
         Pass::CONTROL
@@ -1473,7 +1475,7 @@ fn list_passes(seed: u64, idx: u64) -> i32 {
     std::hint::black_box(firstuse::warm_up_third_party());
     install_clock();
     let mut rng = Rng::for_run(seed, tag("C03-call"), idx);
-    let call = calls::gen_call(&mut rng, &funcs);
+    let call = calls::call_for_index(seed, idx, &funcs, &mut rng);
     let vals = match &call {
         Call::Func { args, .. } | Call::Chain { args, .. } => args.vals(),
         _ => None,
